@@ -790,6 +790,34 @@ def install_more_extras(eng):
         return outs
     S(r"^(Option|Result)::<.*>::unwrap_or_default$", s_unwrap_or_default)
 
+    # inspect / inspect_err: run the closure on a reference to the payload, hand the value on unchanged
+    def s_inspect(which):
+        def h(eng, st, callee, args, dty):
+            vs = variants(eng, st, args[0], None)
+            if len(vs) != 1 or vs[0][0] is not None:
+                raise EngineAbort("closure-taking combinator on a symbolic enum")
+            v = vs[0][1]
+            if v.vname != which:
+                return Outcome(v)
+            st.ghost["_inspected"] = v
+            r = call_closure(eng, st, callee, args[1], [RefV(Cell(v.fields[0]))], lambda s2, r: s2.ghost.pop("_inspected"))
+            return r
+        return h
+    S(r"^Result::<.*>::inspect_err::<", s_inspect("Err"))
+    S(r"^Result::<.*>::inspect::<", s_inspect("Ok"))
+    S(r"^Option::<.*>::inspect::<", s_inspect("Some"))
+
+    # process-wide state: recorded so that lemmas can forbid it where threads run concurrently
+    def s_proc(name):
+        def h(eng, st, callee, args, dty):
+            return Outcome(eng.fresh_int(st, "u32", "old_" + name) if name == "umask" else (ok() if name != "setenv" else UnitV()),
+                           events=[Event("process-state", [name], None)])
+        return h
+    ok = lambda: AggV("Result", 0, [UnitV()], "Ok")
+    S(r"^(libc::)?umask$|^rustix::process::umask$", s_proc("umask"))
+    S(r"^std::env::set_current_dir::<|^(libc::)?(f?chdir)$|^rustix::process::f?chdir", s_proc("chdir"))
+    S(r"^std::env::(set_var|remove_var)::<", s_proc("setenv"))
+
     # bool::then / then_some
     def s_then_some(eng, st, callee, args, dty):
         b = args[0]
